@@ -6,7 +6,7 @@ use super::*;
 /// counterexample of a failed assertion when the harness has no cover statements).
 macro_rules! vcover {
     ($c:expr, $m:literal) => {
-        #[cfg(not(feature = "verif_replay"))]
+        #[cfg(not(any(feature = "verif_replay", feature = "verif_nocover")))]
         kani::cover!($c, $m);
     };
 }
@@ -19,3 +19,70 @@ macro_rules! clause {
     };
 }
 pub(crate) use clause;
+
+// ---------------------------------------------------------------------------------------------
+// Ghost policy: an arbitrary *pure* policy function.
+// Each distinct argument triple gets a nondeterministic answer that is memoised, so the harness
+// quantifies over every deterministic `PolicyFn` (as long as a call makes at most CAP distinct
+// queries, which is itself asserted).
+// ---------------------------------------------------------------------------------------------
+pub(crate) mod gpolicy {
+    use crate::{Class, Policy};
+    pub const CAP: usize = 6;
+    static mut LEN: usize = 0;
+    static mut ARGS: [(u8, u8, usize); CAP] = [(0, 0, 0); CAP];
+    static mut RES: [Policy; CAP] = [Policy::Invalid; CAP];
+    /// If set, the policy never answers `Invalid` ("never declares a tree unusable").
+    pub static mut NEVER_INVALID: bool = false;
+
+    pub fn any_policy_value() -> Policy {
+        let k: u8 = kani::any();
+        let never_invalid = unsafe { NEVER_INVALID };
+        kani::assume(k < 4 && !(never_invalid && k == 3));
+        match k {
+            0 => Policy::Match(kani::any()),
+            1 => Policy::Demote,
+            2 => Policy::Steal,
+            _ => Policy::Invalid,
+        }
+    }
+
+    /// The policy function handed to the code under contract.
+    pub fn policy(req: Class, tgt: Class, free: usize) -> Policy {
+        unsafe {
+            let mut i = 0;
+            while i < LEN {
+                if ARGS[i].0 == req.0 && ARGS[i].1 == tgt.0 && ARGS[i].2 == free {
+                    return RES[i];
+                }
+                i += 1;
+            }
+            kani::assert(LEN < CAP, "ghost policy: more distinct queries than the log holds");
+            let p = any_policy_value();
+            ARGS[LEN] = (req.0, tgt.0, free);
+            RES[LEN] = p;
+            LEN += 1;
+            p
+        }
+    }
+    /// Was `policy(req, tgt, _)` answered with Match or Steal for some `free` during this run?
+    pub fn answered_match_or_steal(req: Class, tgt: Class) -> bool {
+        unsafe {
+            let mut i = 0;
+            let mut r = false;
+            while i < LEN {
+                if ARGS[i].0 == req.0 && ARGS[i].1 == tgt.0 && matches!(RES[i], Policy::Match(_) | Policy::Steal) {
+                    r = true;
+                }
+                i += 1;
+            }
+            r
+        }
+    }
+}
+
+pub(crate) fn any_class() -> Class {
+    let c: u8 = kani::any();
+    kani::assume(c < Class::LEN);
+    Class(c)
+}
